@@ -334,6 +334,8 @@ pub fn execute(world: &World, plan: &Plan, judgement: &Judgement, scratch: &Path
 
     // ---- the run itself, on a fresh thread so that its hash keys come from the plan
     hashseed::activate(plan.hash_seed);
+    // jitter of the client library's retry intervals (vendored backoff seam)
+    backoff::verif_seed_jitter(crate::rng::mix(plan.unit_seed, "retry-jitter") | 1);
     let argv = world.args.argv();
     let unit_seed = plan.unit_seed;
     let shared: Arc<Mutex<Option<Arc<Gate>>>> = Arc::new(Mutex::new(None));
